@@ -913,6 +913,107 @@ var redeployRefreshes bool
 // is read back and given to the model as BRebody steps (new body, confirmations dropped).
 func (h *bhist) opRedeploy(sameID bool) { h.opRedeployOn(false, sameID) }
 
+// opLateActivation (seeded C06-S): the activation of an OLDER or equal compass deployment (contract id not above the active
+// one, another unique id) is processed after a newer compass is active.  evm ignores it: the chain stays bound to the active
+// compass, ConfirmBatch keeps verifying against the checkpoint for the active compass id - and nothing else may move: the
+// open batches' stored bytes to sign and confirmations stay as they are.  Followed by confirmations over (a) the stored
+// bytes, (b) the checkpoint for the active compass, (c) the checkpoint for the stale compass.
+func (h *bhist) opLateActivation(second bool) {
+	cname, tid, scID := chainName, h.tid, h.scID
+	if second {
+		cname, tid, scID = h.c2.name, h.c2.tid, h.c2.scID
+	}
+	r := h.run.Rng
+	id := scID
+	if id > 0 && r.Intn(2) == 0 {
+		id = uint64(r.Intn(int(scID))) + 0
+		if id == 0 {
+			id = scID
+		}
+	}
+	stale := fmt.Sprintf("compass-stale-%d-%s", r.Intn(1000), cname)
+	if err := h.in.EvmKeeper.ActivateChainReferenceID(h.ctx, cname, &evmtypes.SmartContract{Id: id}, "0x7C3E98aA540B2C3545E1DbA2D5e8B3e3e8bD3c7e", []byte(stale)); err != nil {
+		h.t.Fatalf("ActivateChainReferenceID: %v", err)
+	}
+	ci, err := h.in.EvmKeeper.GetChainInfo(h.ctx, cname)
+	if err != nil || string(ci.SmartContractUniqueID) != tid {
+		h.t.Fatalf("late activation of contract %d changed the chain's compass id: %q %v", id, ci.GetSmartContractUniqueID(), err)
+	}
+	how := fmt.Sprintf("late-activation(contract id %d <= active %d, compass id %s)", id, scID, stale)
+	h.run.Count("op", "late-activation-of-older-compass")
+	h.replay = append(h.replay, map[string]any{"op": how, "chain": cname})
+	for _, n := range h.nonces {
+		if b := h.stored(n); b != nil && h.is2(n) == second {
+			if cp, _ := b.GetCheckpoint(tid); hex.EncodeToString(cp) != hex.EncodeToString(b.BytesToSign) {
+				h.violate("C06:late-activation-rewrites-open-batch-bytes", fmt.Sprintf("after %s: evm ignored the activation (the chain keeps compass id %q, ConfirmBatch verifies against it) but announced it; skyway rewrote batch %d's stored bytes to sign for the stale compass id and dropped its confirmations: validators are told to sign bytes ConfirmBatch refuses", how, tid, n))
+			}
+		}
+	}
+	h.observe(how) // bytes to sign of every open batch = checkpoint under the ACTIVE compass id; model: nothing happened
+	if h.viol {
+		h.dead = true
+		return
+	}
+	// confirmations over the three candidate byte strings of an open batch of that chain
+	for _, n := range h.nonces {
+		b := h.stored(n)
+		if b == nil || h.is2(n) != second {
+			continue
+		}
+		v := r.Intn(len(h.accs))
+		reg := h.regOf(v, n)
+		key := -1
+		for i := range h.keys {
+			if lower(h.keyAddr(i)) == reg {
+				key = i
+			}
+		}
+		if key < 0 {
+			break
+		}
+		staleCp, err := b.GetCheckpoint(stale)
+		if err != nil {
+			h.t.Fatal(err)
+		}
+		ver := h.versionOf(b)
+		for _, cand := range []struct {
+			what string
+			cp   []byte
+			spec string
+		}{{"stored-bytes-to-sign", b.BytesToSign, ""}, {"checkpoint-active-compass", ver.cp, ""}, {"checkpoint-stale-compass", staleCp, "C06.CJunk"}} {
+			spec := cand.spec
+			if spec == "" {
+				if hex.EncodeToString(cand.cp) == hex.EncodeToString(ver.cp) {
+					spec = fmt.Sprintf("(C06.COver %d %s)", idOf(h.addrIDs, reg), ver.coq)
+				} else {
+					spec = "C06.CJunk"
+				}
+			}
+			sgb, err := types.NewEthereumSignature(cand.cp, h.keys[key])
+			if err != nil {
+				h.t.Fatal(err)
+			}
+			sig := hex.EncodeToString(sgb)
+			_, err = h.ms.ConfirmBatch(h.ctx, &types.MsgConfirmBatch{
+				Nonce: n, TokenContract: h.tokenOf(n).GetAddress().Hex(), EthSigner: common.HexToAddress(reg).Hex(), Orchestrator: h.accs[v].String(), Signature: sig,
+				Metadata: valsettypes.MsgMetadata{Creator: h.accs[v].String(), Signers: []string{h.accs[v].String()}},
+			})
+			c := confirmClass(err)
+			if c == 50 {
+				h.t.Fatalf("ConfirmBatch: %v", err)
+			}
+			if err == nil {
+				h.regAt[fmt.Sprintf("%d/%d", n, v)] = reg
+			}
+			h.run.Count("confirm-what", "after-late-activation/"+cand.what)
+			h.run.Count("confirm-outcome", fmt.Sprint(c))
+			h.step(fmt.Sprintf("C06.BCnf %d %d %d %d %s", v, n, h.cidOf(n), idOf(h.addrIDs, reg), spec), c,
+				map[string]any{"op": "confirm", "validator": v, "nonce": n, "signed": cand.what, "checkpoint": hex.EncodeToString(cand.cp), "signature": sig})
+		}
+		break
+	}
+}
+
 func (h *bhist) opRedeployOn(second, sameID bool) {
 	cname, ptid, pscID := chainName, &h.tid, &h.scID
 	if second {
@@ -1018,7 +1119,9 @@ func runBatchHistory(t *testing.T, run *emit.Run) *bhist {
 		case k < 58:
 			h.opSetStatus(r.Intn(len(h.accs)), []int64{3, 3, 2, 1}[r.Intn(4)])
 		case k < 60:
-			if redeployRefreshes {
+			if redeployRefreshes && r.Intn(3) == 0 {
+				h.opLateActivation(false)
+			} else if redeployRefreshes {
 				h.opRedeploy(r.Intn(4) == 0)
 			} else {
 				h.opConfirm()
@@ -1182,7 +1285,9 @@ func runTwoChainHistory(t *testing.T, run *emit.Run, scripted bool) *bhist {
 		case k < 80:
 			h.opRegister(r.Intn(5), r.Intn(len(h.keys)))
 		default:
-			if redeployRefreshes {
+			if redeployRefreshes && r.Intn(4) == 0 {
+				h.opLateActivation(r.Intn(2) == 0)
+			} else if redeployRefreshes {
 				h.opRedeployOn(r.Intn(2) == 0, r.Intn(5) == 0)
 			} else {
 				h.opConfirm()
